@@ -48,6 +48,8 @@ let handle kind c =
        read_runs c (fun i v -> img_set im i v);
        let nops = next_int c in
        let mcell = ref None in
+       (* the file AS FOUND AT REST: does its limit cover all its linked records? *)
+       let rest_gap = ref None in
        let diverged = ref false in
        for opi = 1 to nops do
          let ok = next c in
@@ -90,6 +92,10 @@ let handle kind c =
               | Some cell -> (match add_cell f cell k with Some f' -> (["added"], f') | None -> (["FAULT"], f))
               | None -> (["nocell"], f))
            | t -> failwith ("op " ^ t) in
+         if !rest_gap = None then begin
+           let l0 = rd32 f h in let l0 = if l0 = N0 then table_end h else l0 in
+           rest_gap := Some (N.ltb l0 max_end)
+         end;
          (* ---- oracles on the implementation ---- *)
          (match status with
           | "hang" ->
@@ -100,8 +106,10 @@ let handle kind c =
              let lim = rd32 f h in
              let lim = if lim = N0 then table_end h else lim in
              ignore nl;
-             (* the limit found in the file does not cover all linked records: the known class *)
-             let cls = if N.ltb lim max_end then "limit-below-records" else "other-counter-changed" in
+             (* known class: the limit of the file as found at rest (before the first call) does not cover
+                all its linked records; a record reserved inside such a gap overlaps an existing record, and
+                the damage may only show at a later call (e.g. the Add on the overlapping cell) *)
+             let cls = if N.ltb lim max_end || !rest_gap = Some true then "limit-below-records" else "other-counter-changed" in
              prop cls (Printf.sprintf "%s: the call on %s %s counter %s at %s (value before %s, after %s; limit found in the file: %s)"
                          where (tok_of_bytes name) (if what = "lost" then "made unreachable the" else "changed the value of")
                          (tok_of_bytes nm) (hexn off) (hexn b) (hexn a) (hexn lim))) changed;
